@@ -11,6 +11,20 @@ Streams
              single-edit mutants and token soups x in-range / just-out-of-range positions.
              Prediction: ok, or ValueError iff Model.Validate rejects. Any other exception class is
              a property failure, keyed on (exception class, innermost jedi frame).
+  typed      code being typed, systematically for CALLS (harness/gen/c01_calls.py): below a fixed
+             program head one statement containing a call of a resolvable function / method /
+             class / lambda is typed character by character; the arguments run through every
+             kind of argument expression, every statement context, several layouts.  After every
+             keystroke: get_signatures / get_context / infer / goto / help (and complete /
+             get_references at the hot cut points; everything everywhere in the thorough tier) at
+             the cursor, then every documented attribute of every result (Signature.index,
+             .params, repr ...).  A share of the statements is also queried complete, with the
+             cursor at every column.  Failures are reported on stream `api` (family typed/...).
+  iterargs   the argument scan behind Signature.index and keyword completion: the real
+             `helpers._iter_arguments(children, position)` on the node lists that
+             `get_signature_details` hands over for every typed prefix vs Model.IterArgs (total by
+             theorem `iterArguments_total`); an exception of the real scan is a property failure
+             of get_signatures()[i].index on that prefix.
 """
 import itertools
 import json
@@ -20,10 +34,11 @@ import time
 
 import common
 from common import short
-from gen import api_walk, texts
+from gen import api_walk, c01_calls, texts
 
-MODELS = ['Validate', 'ApiHelpers']
-MODEL_TARGETS = ['JediModel.Lemmas.ValidateSpec', 'JediModel.Model.ApiHelpers']
+MODELS = ['Validate', 'ApiHelpers', 'IterArgs']
+MODEL_TARGETS = ['JediModel.Lemmas.ValidateSpec', 'JediModel.Model.ApiHelpers', 'JediModel.Model.IterArgs',
+                 'JediModel.Lemmas.IterArgsSpec']
 MANIFEST = dict(
     text='Theorems over the model of helpers.validate_line_column, instantiated with the operators, bounds, '
          'defaults, endswith table and exception classes the translator reads from the source: closed form, '
@@ -32,12 +47,22 @@ MANIFEST = dict(
          'text, an accepted position indexes lines[line-1][:column] safely, every public Script method taking a '
          'position carries the decorator or only delegates to one that does. Pure helpers under the query '
          'methods (get_on_completion_name regex branch, _get_code, cut_value_at_position) are modelled with '
-         'Python slice semantics and proved total and correct w.r.t. Model.Text positions. Tie: translator + '
-         'exhaustive small-scope correspondence of the real wrapper + whole-API fuzzing (a test, labelled so).',
-    note='Modelled not verified: parso (tokenizer, error recovery), the inference engine. Totality of those is '
-         'sampled by the api stream only. Sandbox: typeshed is empty; the resulting exceptions are listed as '
-         'known findings keyed on (exception class, innermost jedi frame).',
-    technique='Lean 4 proof over hand-written model + translator-generated constants + differential correspondence + API fuzzing',
+         'Python slice semantics and proved total and correct w.r.t. Model.Text positions. The argument scan '
+         'behind Signature.index and keyword completion (helpers._iter_arguments) is transcribed over parso nodes '
+         'with `.value` of a non-leaf = AttributeError and `children[k]` out of range = IndexError explicit; the '
+         'translator lists every `.value` read with the tests that dominate it; iterArguments_total: with the '
+         'guards found in the source the scan completes on EVERY list of well-formed parso nodes one of which '
+         'starts before the cursor (any types, values, nesting, cursor); iterArguments_unguarded_eq_raises: '
+         'without the guard in front of `before.value` the nodes of `f(a.x =` raise. Tie: translator + '
+         'exhaustive small-scope correspondence of the real wrapper + correspondence of the real '
+         '_iter_arguments with the model on the node lists of every typed prefix + whole-API fuzzing and the '
+         'systematic typed-call stream (tests, labelled so).',
+    note='Modelled not verified: parso (tokenizer, error recovery; the well-formedness facts WF of its trees), '
+         'the inference engine. Totality of those is sampled by the api / typed streams only. Sandbox: typeshed '
+         'is empty; the resulting exceptions are listed as known findings keyed on (exception class, innermost '
+         'jedi frame).',
+    technique='Lean 4 proof over hand-written model + translator-generated constants and guard tables + '
+              'differential correspondence + API fuzzing + systematic keystroke-by-keystroke enumeration of calls',
     design='5.C01')
 LEAN_TARGETS = ['JediModel.Props.C01', 'JediModel.Drivers.C01']
 
@@ -103,6 +128,10 @@ def exc_key(e):
     the innermost frame is arbitrary, so the site is the most frequent jedi frame of the cycle
     (ties: smallest name), which is stable."""
     cls, site = common.exc_site(e)
+    if cls == 'UncaughtAttributeError' and e.__cause__ is not None:
+        # jedi.inference.utils.reraise_uncaught: `raise UncaughtAttributeError(e) from e`;
+        # the place is the one of the AttributeError it wraps
+        return cls, common.exc_site(e.__cause__)[1] or site
     if cls != 'RecursionError':
         return cls, site
     import collections
@@ -349,7 +378,8 @@ def run_api_case(ctx, reqs, cases, stats, family, text, rng, npos, deadline):
             case = dict(cur)
             case.update({'method': method, 'attribute': attr, 'exception': out[0], 'site': out[1], 'family': family})
             ctx.fail('api', 'result attribute raised %s at %s' % out, case,
-                     expected='completes normally', observed={'exception': out[0], 'site': out[1], 'message': short(str(e), 200)},
+                     expected='completes normally',
+                     observed={'exception': out[0], 'site': out[1], 'message': short(str(e), 200), 'frames': exc_frames(e)},
                      how=how)
 
     # in-range positions: the full walk
@@ -393,7 +423,7 @@ def stream_api(ctx, reqs):
     rng = ctx.subrng('api')
     cases = []
     stats = ApiStats()
-    budget = ctx.size(20.0, 900.0)
+    budget = ctx.size(12.0, 600.0)
     t0 = time.time()
     deadline = t0 + budget
     ntexts = 0
@@ -417,6 +447,310 @@ def stream_api(ctx, reqs):
     ctx.notes.append('api stream: %d texts, %d result objects walked, %.1fs; internal-exception sites: %s'
                      % (ntexts, stats.objects, time.time() - t0,
                         {'%s@%s' % k: v for k, v in sorted(stats.sites.items(), key=lambda kv: -kv[1])}))
+    return cases
+
+
+# ------------------------------------------------------------------ stream: typed calls
+
+TYPED_LIGHT = [('get_signatures', {}), ('get_context', {}), ('infer', {}), ('goto', {}), ('help', {})]
+TYPED_HEAVY = [('complete', {}), ('get_references', {'scope': 'file'}), ('goto', {'follow_imports': True})]
+
+
+def dump_node(node):
+    """what `_iter_arguments` can observe of a parso node: type, value (leaves only), start
+    position, whether `node == '<str>'` compares the value (Operator / Keyword) or is identity,
+    isinstance(node, PythonLeaf), children"""
+    from parso.python import tree
+    d = {'t': node.type, 's': list(node.start_pos),
+         'k': type(node).__eq__ is not object.__eq__,
+         'l': isinstance(node, tree.PythonLeaf)}
+    d['v'] = node.value if hasattr(node, 'value') else None
+    d['c'] = [dump_node(c) for c in node.children] if hasattr(node, 'children') else []
+    return d
+
+
+def iterargs_real(children, position):
+    from jedi.api import helpers
+    try:
+        return [[a, b, c] for (a, b, c) in helpers._iter_arguments(children, position)]
+    except Exception as e:
+        return {'exc': type(e).__name__}
+
+
+def exc_frames(e, k=40):
+    """the jedi frames of the traceback (of the wrapped AttributeError for an
+    UncaughtAttributeError), outermost first, immediate repetitions dropped, the innermost k:
+    'file:function > file:function > ...'"""
+    import traceback
+    if type(e).__name__ == 'UncaughtAttributeError' and e.__cause__ is not None:
+        e = e.__cause__
+    frames = []
+    for fr in traceback.extract_tb(e.__traceback__)[-300:]:
+        fn = fr.filename.replace('\\', '/')
+        if '/jedi/' in fn:
+            f = '%s:%s' % (fn.split('/jedi/')[-1], fr.name)
+            if not frames or frames[-1] != f:
+                frames.append(f)
+    return ' > '.join(frames[-k:])
+
+
+def cheap_walk(label, obj, err):
+    """the attributes of a result that depend on the text typed so far (evaluated at every
+    prefix): identity attributes, repr, Completion.complete / prefix length, Signature.index /
+    bracket_start / params / to_string.  Returns the identity of the object."""
+    kind = type(obj).__name__
+    vals = []
+    for a in api_walk.NAME_ATTRS:
+        try:
+            vals.append(getattr(obj, a))
+        except Exception as e:
+            vals.append(None)
+            err(label, '%s.%s' % (kind, a), e)
+
+    def call(what, f):
+        try:
+            return f()
+        except Exception as e:
+            err(label, '%s.%s' % (kind, what), e)
+    call('__repr__', lambda: repr(obj))
+    if kind == 'Completion':
+        for a in api_walk.COMPLETION_ATTRS:
+            call(a, lambda: getattr(obj, a))
+        call('get_completion_prefix_length', obj.get_completion_prefix_length)
+    if kind == 'Signature':
+        call('index', lambda: obj.index)
+        call('bracket_start', lambda: obj.bracket_start)
+        call('to_string', obj.to_string)
+        for p in call('params', lambda: obj.params) or []:
+            for a in ('name', 'kind'):
+                call('params.' + a, lambda: getattr(p, a))
+            call('params.to_string', p.to_string)
+            call('params.__repr__', lambda: repr(p))
+    return (label, kind) + tuple(str(v) for v in vals)
+
+
+_WALKED = set()      # per worker process: identities of the results that had their full walk
+
+
+def typed_item(item):
+    """worker of common.parallel_map (fresh interpreter): one statement typed below the head.
+    `full`: every query at every prefix and a full attribute walk of every result.  Otherwise the
+    heavy queries run at the hot prefixes only, and the full attribute walk (docstring, type
+    hint, goto / infer / parent / execute / defined_names of the result ...) is done once per
+    distinct result (query, class, name, type, module, line, column, description, full name) in
+    this worker process -- the head is the same program for every statement; the
+    text-dependent attributes (`cheap_walk`) are read at every prefix."""
+    import jedi
+    from jedi.api import helpers
+    head, stmt = c01_calls.HEAD, item['stmt']
+    full = item.get('full', False)
+    mode = item.get('mode', 'prefix')
+    max_results = item.get('max_results', 3)
+    t0 = time.process_time()
+    out = {'id': item['id'], 'prefixes': 0, 'queries': 0, 'objects': 0, 'with_sig': 0, 'errors': [],
+           'iterargs': [], 'suppressed': 0}
+    seen_err = {}
+    seen_ia = set()
+    seen_obj = _WALKED
+    cur = {}
+
+    def visit(method, obj):
+        out['objects'] += 1
+
+    def err(method, attr, e):
+        cls, site = exc_key(e)
+        k = (cls, site, attr is None)
+        seen_err[k] = seen_err.get(k, 0) + 1
+        if seen_err[k] > 2:
+            out['suppressed'] += 1
+            return
+        rec = dict(cur)
+        rec.update({'method': method, 'attribute': attr, 'exception': cls, 'site': site,
+                    'message': short(str(e), 200), 'frames': exc_frames(e)})
+        out['errors'].append(rec)
+
+    for n in c01_calls.cuts(stmt, item.get('start', 0)):
+        typed = stmt[:n]
+        if mode == 'cursor':        # the whole statement is there, the cursor after n characters
+            tail = stmt
+        elif mode == 'delete':      # one character deleted (`==` -> `=`, `a.x` -> `ax`, `, ` -> ` `)
+            tail = stmt[:n - 1] + stmt[n:]
+            typed = stmt[:n - 1]
+        else:                       # typing: n characters are there
+            tail = typed
+        code = head + tail
+        line, col = c01_calls.end_position(head + typed)
+        out['prefixes'] += 1
+        queries = list(TYPED_LIGHT)
+        if full or item.get('heavy_all') or c01_calls.hot(stmt, n):
+            queries += TYPED_HEAVY
+        cur = {'typed': typed, 'tail': tail, 'mode': mode, 'line': line, 'column': col}
+        # one Script per prefix (a Script made later for other text re-uses and mutates the
+        # cached tree of an earlier one, so results of an earlier prefix are never touched again)
+        script = jedi.Script(code)
+        for name, kw in queries:
+            lab = api_walk.label(name, kw)
+            out['queries'] += 1
+            try:
+                res = api_walk.run_query(script, name, kw, line, col)
+            except Exception as e:
+                err(lab, None, e)
+                continue
+            if res is None:
+                continue
+            if not isinstance(res, (list, tuple)):
+                res = [res]
+            if name == 'get_signatures' and res:
+                out['with_sig'] += 1
+            for r in list(res)[:max_results]:
+                ident = cheap_walk(lab, r, err)
+                if not full:
+                    if ident in seen_obj:
+                        out['objects'] += 1
+                        continue
+                    seen_obj.add(ident)
+                api_walk.walk_object(lab, r, visit, err, depth=1)
+        # the node list the argument scan sees at this prefix
+        try:
+            details = helpers.get_signature_details(script._module_node, (line, col))
+        except Exception as e:
+            err('get_signature_details', None, e)
+            details = None
+        if details is not None:
+            children = [dump_node(c) for c in details._children]
+            key = json.dumps([children, line, col], sort_keys=True)
+            if key not in seen_ia:
+                seen_ia.add(key)
+                out['iterargs'].append({'typed': typed, 'tail': tail, 'mode': mode, 'children': children,
+                                        'line': line, 'col': col,
+                                        'impl': iterargs_real(details._children, details._position)})
+    out['cpu'] = round(time.process_time() - t0, 2)
+    return out
+
+
+def stream_typed_start(ctx):
+    """generates the items and starts the workers in a thread (they run while the in-process
+    streams do); returns a join function -> (items, results)"""
+    import threading
+    rng = ctx.subrng('typed')
+    items = c01_calls.lines(rng, ctx.size(10, 300), ctx.size(5, None))
+    for it in items:
+        # thorough: every query at every prefix; the unabridged attribute walk at every prefix for
+        # the systematic part
+        it['heavy_all'] = not ctx.quick
+        it['full'] = (not ctx.quick) and it['kinds'][0] in ('sys', 'ctx')
+        it['max_results'] = ctx.size(3, 5)
+    # regression inputs first: corpus/C01/typed-*.json, every query at every prefix
+    import glob
+    corpus = []
+    for k, path in enumerate(sorted(glob.glob(os.path.join(common.CORPUS_DIR, 'C01', 'typed-*.json')))):
+        with open(path, encoding='utf-8') as f:
+            c = json.load(f)
+        corpus.append({'id': 'k%d' % k, 'stmt': c['stmt'], 'start': c.get('start', 0), 'kinds': c['kinds'],
+                       'full': not ctx.quick, 'heavy_all': not ctx.quick, 'max_results': ctx.size(3, 5)})
+    # a share of the statements: complete text, cursor at every column of the statement; and
+    # the statement with one character deleted (a small edit of a valid program: `==` -> `=`,
+    # a dropped comma / dot / bracket), cursor at the edit
+    extra = []
+    for mode, share in (('cursor', ctx.size(0.08, 0.3)), ('delete', ctx.size(0.1, 0.3))):
+        for it in corpus[:ctx.size(1, 3)] + items:
+            if it in corpus or rng.random() < share:
+                c = dict(it)
+                c['mode'] = mode
+                c['id'] = '%s%s' % (mode[0], it['id'])
+                extra.append(c)
+    items = corpus + items + extra
+    # long statements first: the chunks of parallel_map are contiguous, so interleave by length
+    order = sorted(range(len(items)), key=lambda i: -len(items[i]['stmt']))
+    jobs = 14
+    buckets = [[] for _ in range(jobs)]
+    for r, i in enumerate(order):
+        buckets[r % jobs].append(items[i])
+    box = {}
+
+    def work():
+        try:
+            flat = [it for b in buckets for it in b]
+            # parallel_map splits into equal contiguous chunks: pad so that chunk k = bucket k
+            size = max(len(b) for b in buckets)
+            padded = []
+            for b in buckets:
+                padded += b + [None] * (size - len(b))
+            res = common.parallel_map('props.c01', 'typed_item_or_none', padded, jobs=jobs,
+                                      timeout=ctx.size(600, 3000))
+            box['res'] = [r for r in res if r is not None]
+            box['items'] = flat
+        except BaseException as e:     # re-raised in the main thread
+            box['exc'] = e
+    th = threading.Thread(target=work, daemon=True)
+    t0 = time.time()
+    th.start()
+
+    def join():
+        th.join()
+        if 'exc' in box:
+            raise box['exc']
+        ctx.notes.append('typed stream workers: %.1fs wall' % (time.time() - t0))
+        return box['items'], box['res']
+    return join
+
+
+def typed_item_or_none(item):
+    return None if item is None else typed_item(item)
+
+
+def stream_typed_finish(ctx, reqs, join):
+    items, results = join()
+    by_id = {it['id']: it for it in items}
+    how = ('s = jedi.Script(source); r = getattr(s, method)(line, column); then every documented attribute of '
+           'every result (harness/gen/api_walk.py); source = gen.c01_calls.HEAD + the typed characters')
+    cases = []
+    tot = {'prefixes': 0, 'queries': 0, 'objects': 0, 'with_sig': 0, 'suppressed': 0, 'cpu': 0.0}
+    sites = {}
+    seen_ia = set()
+    ia_cap = ctx.size(8000, 25000)
+    for r in results:
+        it = by_id[r['id']]
+        fam = 'typed/' + it.get('mode', 'prefix')
+        for k in ('prefixes', 'queries', 'objects', 'with_sig', 'suppressed'):
+            tot[k] += r[k]
+        tot['cpu'] += r['cpu']
+        kinds = [k for k in it['kinds'] if not k.startswith(('layout:', 'callee:', 'ctx:'))]
+        ctxk = [k for k in it['kinds'] if k.startswith('ctx:')]
+        for k in (kinds[1:2] or ['-']) + ctxk:
+            d = ctx.hist.setdefault('typed', {})
+            d[k] = d.get(k, 0) + r['prefixes']
+        ctx.count('typed', ('stmt', it['stmt'], it.get('mode', 'prefix')), nontrivial=r['with_sig'] > 0,
+                  bucket=fam, sample={'statement': it['stmt'], 'kinds': it['kinds'], 'prefixes': r['prefixes'],
+                                      'prefixes_with_signature': r['with_sig'], 'queries': r['queries']})
+        # every (prefix, query) is one evaluation of the direct oracle
+        s = ctx.streams.setdefault('typed', {'evaluations': 0, 'nontrivial': 0})
+        s['evaluations'] += r['queries']
+        s['nontrivial'] += r['queries']
+        ctx.evaluations += r['queries']
+        for e in r['errors']:
+            source = c01_calls.HEAD + e['tail']
+            key = (e['exception'], e['site'])
+            sites[key] = sites.get(key, 0) + 1
+            case = {'source': source, 'line': e['line'], 'column': e['column'], 'method': e['method'],
+                    'attribute': e['attribute'], 'exception': e['exception'], 'site': e['site'], 'family': fam,
+                    'typed': e['typed'], 'kinds': it['kinds']}
+            what = ('result attribute raised %s at %s' if e['attribute'] else 'internal exception %s at %s') % key
+            ctx.fail('api', what, case, expected='completes normally (the position is inside the text)',
+                     observed={'exception': e['exception'], 'site': e['site'], 'message': e['message'],
+                               'frames': e.get('frames', '')}, how=how)
+        for ia in r['iterargs']:
+            # one request per distinct (node list, position); every real exception is kept
+            key = json.dumps([ia['children'], ia['line'], ia['col']], sort_keys=True)
+            if key in seen_ia or (len(seen_ia) >= ia_cap and not isinstance(ia['impl'], dict)):
+                continue
+            seen_ia.add(key)
+            reqs.append({'op': 'iterargs', 'children': ia['children'], 'line': ia['line'], 'col': ia['col']})
+            cases.append((('iterargs', ia['tail'], ia['typed'], ia['mode'], ia['line'], ia['col']), ia['impl']))
+    ctx.notes.append('typed stream: %d statements, %d prefixes (%d with a resolved signature), %d queries, '
+                     '%d result objects walked, %.0f cpu-s; internal-exception sites: %s'
+                     % (len(results), tot['prefixes'], tot['with_sig'], tot['queries'], tot['objects'], tot['cpu'],
+                        {'%s@%s' % k: v for k, v in sorted(sites.items(), key=lambda kv: -kv[1])}))
     return cases
 
 
@@ -446,7 +780,8 @@ def stream_known(ctx):
             ctx.fail('api', 'result attribute raised %s at %s' % (cls, site),
                      {'source': src, 'line': line, 'column': col, 'method': method, 'attribute': attribute,
                       'exception': cls, 'site': site, 'family': 'probe'},
-                     expected='completes normally', observed={'exception': cls, 'site': site, 'message': short(str(e), 200)},
+                     expected='completes normally',
+                     observed={'exception': cls, 'site': site, 'message': short(str(e), 200), 'frames': exc_frames(e)},
                      how=how)
 
     src = 'class C:\n    def m(self):\n        return 1\n'
@@ -470,6 +805,21 @@ def stream_known(ctx):
     attr_probe(src7, '[g.get_type_hint() for n in jedi.Script(source).infer(6, 20) for g in n.infer()]',
                lambda: [g.get_type_hint() for n in jedi.Script(src7).infer(6, 20) for g in n.infer()],
                'infer.infer', 'Name.get_type_hint', 6, 20)
+    src8 = 'lam = lambda l1: l1\nr = lam()\nr'
+    attr_probe(src8, 'jedi.Script(source).infer(3, 1)', lambda: jedi.Script(src8).infer(3, 1), 'infer', None, 3, 1)
+    src9 = 'try:\n    pass\nexcept A as e'
+    attr_probe(src9, '[n.get_type_hint() for n in jedi.Script(source).get_names()]',
+               lambda: [n.get_type_hint() for n in jedi.Script(src9).get_names()], 'get_names', 'Name.get_type_hint')
+    src10 = 'f0(zz=1, zz'
+    attr_probe(src10, 'jedi.Script(source).get_references(1, 11)', lambda: jedi.Script(src10).get_references(1, 11),
+               'get_references', None, 1, 11)
+    src11 = 'def f0(): pass\nf0(\n    zz=1,\n    zz'
+    attr_probe(src11, 'jedi.Script(source).get_references(4, 6)', lambda: jedi.Script(src11).get_references(4, 6),
+               'get_references', None, 4, 6)
+    src12 = 'def f(p):\n    return p\nr = f(a.x=1)\nr'
+    attr_probe(src12, 'jedi.Script(source).infer(4, 1)', lambda: jedi.Script(src12).infer(4, 1), 'infer', None, 4, 1)
+    src13 = 'def g(p=[y for y in z if q]):\n    pass\n'
+    attr_probe(src13, 'jedi.Script(source).infer(1, 26)', lambda: jedi.Script(src13).infer(1, 26), 'infer', None, 1, 26)
     src6 = '[\n'
     attr_probe(src6, 'jedi.Script(source).complete()', lambda: jedi.Script(src6).complete(), 'complete', None)
 
@@ -525,12 +875,42 @@ def compare(ctx, cases, answers):
                 ctx.tie_broken('correspondence:' + stream,
                                short({'source': text, 'line': line, 'column': col, 'method': lab, 'impl': impl, 'model': model}))
             oracle_position(ctx, stream, text, line, col, impl, how, {'method': lab, 'family': family})
+        elif stream == 'iterargs':
+            _, tail, typed, mode, line, col = key
+            n_args = len(impl) if isinstance(impl, list) else -1
+            ctx.count('iterargs', (tail, line, col), nontrivial=n_args != 1 or impl[0] != [0, '', False],
+                      bucket='args=%s' % (min(n_args, 5) if n_args >= 0 else 'exception'),
+                      sample={'typed': typed, 'impl': impl})
+            if ans != impl:
+                ctx.tie_broken('correspondence:iterargs', short({'text below the head': tail, 'mode': mode, 'position': [line, col],
+                                                                 'impl': impl, 'model': ans}, 600))
+                iterargs_oracle(ctx, tail, typed, mode, line, col, impl)
         elif stream in ('oncompletion', 'getcode', 'cut'):
             model = ans if not isinstance(ans, dict) else 'EXC:' + ans.get('exc', '?')
             ctx.count('helpers', key, nontrivial=impl != '', bucket=stream)
             if model != impl:
                 ctx.tie_broken('correspondence:helpers/' + stream, short({'case': key, 'impl': impl, 'model': model}))
                 helper_oracle(ctx, stream, key, impl)
+
+
+def iterargs_oracle(ctx, tail, typed, mode, line, col, impl):
+    """failing-input search for a disagreement of the argument scan: the property itself on the
+    public API -- get_signatures() at that position and every attribute of its results"""
+    import jedi
+    source = c01_calls.HEAD + tail
+    errs = []
+    try:
+        api_walk.walk(jedi.Script(source), line, col, lambda *a: None, lambda m, a, e: errs.append((m, a, e)),
+                      queries=[('get_signatures', {}), ('complete', {})], max_results=3, depth=1)
+    except Exception as e:
+        errs.append(('walk', None, e))
+    for m, a, e in errs[:3]:
+        cls, site = exc_key(e)
+        ctx.fail('api', ('result attribute raised %s at %s' if a else 'internal exception %s at %s') % (cls, site),
+                 {'source': source, 'line': line, 'column': col, 'method': m, 'attribute': a, 'exception': cls,
+                  'site': site, 'family': 'typed/iterargs/' + mode, 'typed': typed},
+                 expected='completes normally', observed={'exception': cls, 'site': site, 'message': short(str(e), 200)},
+                 how='jedi.Script(source).%s(line, column), then %s' % (m, a))
 
 
 def helper_oracle(ctx, stream, key, impl):
@@ -587,6 +967,7 @@ def run(ctx):
     def lap(name):
         t.append(time.time())
         ctx.notes.append('%s: %.1fs' % (name, t[-1] - t[-2]))
+    join_typed = stream_typed_start(ctx)
     cases += stream_validate(ctx, reqs)
     lap('validate')
     cases += stream_methods(ctx, reqs)
@@ -597,6 +978,8 @@ def run(ctx):
     lap('known probes')
     cases += stream_api(ctx, reqs)
     lap('api')
+    cases += stream_typed_finish(ctx, reqs, join_typed)
+    lap('typed (wait + oracle)')
     if ctx.model_ok:
         answers = common.run_driver_parallel('C01', reqs)
         lap('driver')
@@ -619,28 +1002,46 @@ def run(ctx):
         'totality of parso error recovery and of the inference engine is NOT proved: stream api is fuzzing in support of the claim, not a theorem',
         'sandbox: jedi/third_party/typeshed is empty; exceptions caused by that are listed as known findings keyed on (class, innermost jedi frame)',
         'Python str.isalnum/\\w/\\d (unicode tables) enter the helper models as per-request character classes',
+        'parso trees are well-formed in the sense of Lemmas/IterArgs.WF (leaves have a value; inner nodes are not names, '
+        'have a first child at their own position; argument / star_expr nodes have two children); a parso node is truthy; '
+        'only Operator / Keyword leaves compare equal to a str (stream iterargs compares the real scan with the model on '
+        'the node lists of every typed prefix)',
+        'which test dominates which `.value` read of _iter_arguments is computed by translator/gen_c01.py:value_reads '
+        '(python ast; enclosing if/elif tests, earlier conjuncts of `and`, early returns; single-assignment aliases)',
     ]
     ctx.obligations['exhaustive'] = True
 
 
 def replay(ctx, payload):
+    """re-runs the recorded query at the recorded position on the real code and walks every
+    attribute of the results; exit 1 (and a REPRODUCED line) when the recorded exception class
+    is raised at the recorded place again, exit 0 otherwise"""
     import jedi
     inp = payload['input']
     print('input:', json.dumps(inp, ensure_ascii=True))
+    want = (inp.get('exception'), inp.get('site'))
+    got = []
     if 'source' in inp and inp.get('method'):
-        m = re.match(r'(\w+)', inp['method'])
+        first = inp['method'].split('.')[0]
+        m = re.match(r'(\w+)', first)
         script = jedi.Script(inp['source'])
+        queries = [(n, kw) for n, kw in api_walk.position_queries() + api_walk.global_queries()
+                   if api_walk.label(n, kw) == first] or [(m.group(1), {})]
+        name, kw = queries[0]
         try:
-            if m.group(1) in ('get_names', 'get_syntax_errors', 'search', 'complete_search'):
-                print('see how_to_replay:', payload.get('how_to_replay'))
-            else:
-                r = getattr(script, m.group(1))(inp.get('line'), inp.get('column'))
-                print('result:', r)
-                errs = []
-                for o in (r if isinstance(r, list) else [r]):
-                    api_walk.walk_object(m.group(1), o, lambda *a: None, lambda mm, a, e: errs.append((mm, a, repr(e))))
-                print('attribute errors:', errs)
+            r = api_walk.run_query(script, name, kw, inp.get('line'), inp.get('column'))
+            print('result:', r)
+            for o in (r if isinstance(r, (list, tuple)) else [r] if r is not None else []):
+                api_walk.walk_object(first, o, lambda *a: None,
+                                     lambda mm, a, e: got.append((mm, a) + exc_key(e) + (short(str(e), 120),)))
         except Exception as e:
-            print('raised:', common.exc_site(e), repr(e))
+            got.append((first, None) + exc_key(e) + (short(str(e), 120),))
+        for g in got:
+            print('raised:', g)
     print('expected:', payload.get('expected'), 'observed at record time:', payload.get('observed'))
+    if want[0] and any(g[2:4] == want for g in got):
+        print('REPRODUCED: %s at %s' % want)
+        return 1
+    if want[0]:
+        print('not reproduced: %s at %s was not raised' % want)
     return 0
